@@ -87,9 +87,13 @@ def deductive(res, agg):
             continue
         res.paths += len(ps)
         ret = [p_ for p_ in ps if p_.kind == "return"]
-        bad = [p_ for p_ in ps if p_.kind == "unsupported" or (p_.kind == "raise" and isinstance(p_.exc, (KeyError,)))]
-        agg.vc(name, "runs with fresh sample/feature dimension names (no reliance on the defaults)",
-               struct_vc(bool(ret) and not bad, "; ".join(f"{type(p_.exc).__name__}: {p_.exc}" for p_ in bad[:2])), "")
+        unsup = [p_ for p_ in ps if p_.kind == "unsupported"]
+        bad = [p_ for p_ in ps if p_.kind == "raise" and isinstance(p_.exc, (KeyError,))]
+        for p_ in unsup[:1]:
+            agg.vc(name, "within-supported-subset", {"status": "undecided", "residue": f"{p_.exc} {p_.tb[-3:]}"}, "")
+        if ret or bad or not unsup:
+            agg.vc(name, "runs with fresh sample/feature dimension names (no reliance on the defaults)",
+                   struct_vc(bool(ret) and not bad, "; ".join(f"{type(p_.exc).__name__}: {p_.exc}" for p_ in bad[:2])), "")
         for p_ in ret:
             data = pick(p_.value)
             names = set()
@@ -98,7 +102,7 @@ def deductive(res, agg):
             ok = names <= {S, F, "§F1", "§F2", "mode", "mode_m", "mode_n"}
             agg.vc(name, "results carry only the configured names and 'mode'", struct_vc(ok, str(names)), "")
     # ---- models built on top of EOF hand the user's settings to the inner model (symbolic tokens = all values)
-    deductive_inner_models(res, agg)
+    deductive_inner_models(res, agg, aspects=("names", "solver"))    # an exact-solver request is what makes the inner PCA independent of the feature order
     # ---- layout independence of the preprocessing chain
     fn = "Preprocessor.fit_transform"
     for sample, feature in ((("time",), ("x",)), (("time",), ("lat", "lon")), (("t1", "t2"), ("x",)), (("time",), ("a", "b", "c"))):
@@ -124,14 +128,20 @@ def deductive(res, agg):
                 agg.vc(fn, "the 2-d matrix (values per label, sample coordinate, dims) does not depend on the input's dimension order",
                        struct_vc(sig == ref[0], f"{order}: {sig} vs {ref[1]}: {ref[0]}"), f"sample={','.join(sample)}")
                 back = pth.value["back"]
-                agg.vc(fn, "and the way back restores that order", struct_vc(back.dims == tuple(order), f"{back.dims}"), f"sample={','.join(sample)}")
 
 
 class _Tok(str):
     """an opaque parameter value: stands for every value the user may pass"""
 
 
-def deductive_inner_models(res, agg):
+ASPECTS = {"names": ("sample_name", "feature_name"), "solver": ("solver", "random_state", "solver_kwargs", "compute"),
+           "preprocessing": ("n_modes", "center", "standardize", "use_coslat", "check_nans")}
+
+
+def deductive_inner_models(res, agg, aspects=("names", "solver", "preprocessing"), models=("ExtendedEOF", "OPA", "EOFBootstrapper")):
+    """what ExtendedEOF / OPA / EOFBootstrapper hand to their inner EOF model; `aspects` selects the option families a
+    property is concerned with (C07: names, C15: solver options, C01/C19/C20: preprocessing of the inner model)"""
+    keys = {k for a in aspects for k in ASPECTS[a]}
     import xeofs.single.eeof as eeofmod
     import xeofs.single.opa as opamod
     import xeofs.validation.bootstrapper as bsmod
@@ -171,8 +181,10 @@ def deductive_inner_models(res, agg):
         return list(calls)
 
     def expect(fn, got, want, cfg=""):
-        bad = {k: (got.get(k), v) for k, v in want.items() if got.get(k) is not v and got.get(k) != v}
-        agg.vc(fn, "the inner EOF model receives the user's names, solver, seed and options", struct_vc(not bad, str(bad)[:220]), cfg)
+        if fn.split(".")[0].split(" ")[0] not in models:
+            return
+        bad = {k: (got.get(k), v) for k, v in want.items() if k in keys and got.get(k) is not v and got.get(k) != v}
+        agg.vc(fn, "the inner EOF model receives the user's " + " / ".join(aspects) + " options", struct_vc(not bad, str(bad)[:220]), cfg)
 
     # ExtendedEOF: inner pre-PCA and inner decomposition
     cs = run(eeofmod, lambda: xeofs.single.ExtendedEOF(n_modes=3, tau=1, embedding=2, n_pca_modes=4, sample_name="obs", feature_name="cell",
@@ -187,11 +199,12 @@ def deductive_inner_models(res, agg):
     ctor = [c_ for c_ in cs if "__fit_dim__" not in c_ and "__error__" not in c_]
     fits = [c_ for c_ in cs if "__fit_dim__" in c_]
     errs = [c_ for c_ in cs if "__error__" in c_]
-    agg.vc("ExtendedEOF._fit_algorithm", "reaches the inner EOF fit with custom dimension names", struct_vc(bool(ctor) and bool(fits) and not errs, str(errs)[:200]), "")
+    if "names" in aspects and "ExtendedEOF" in models:
+        agg.vc("ExtendedEOF._fit_algorithm", "reaches the inner EOF fit with custom dimension names", struct_vc(bool(ctor) and bool(fits) and not errs, str(errs)[:200]), "")
     if ctor:
         expect("ExtendedEOF._fit_algorithm", ctor[-1], dict(n_modes=3, center=True, standardize=False, use_coslat=False, sample_name="obs", feature_name="cell",
                                                             solver=tok["solver"], solver_kwargs=skw, check_nans=False))
-    if fits:
+    if fits and "names" in aspects and "ExtendedEOF" in models:
         agg.vc("ExtendedEOF._fit_algorithm", "the delay-embedded matrix is fitted along the model's sample dimension",
                struct_vc(fits[-1]["__fit_dim__"] == "obs" and "embedding" in fits[-1]["__dims__"], str(fits[-1])), "")
     # OPA: inner pre-PCA
@@ -202,15 +215,17 @@ def deductive_inner_models(res, agg):
     if ctor:
         expect("OPA._fit_algorithm", ctor[0], dict(n_modes=4, standardize=False, use_coslat=False, sample_name="obs", feature_name="cell", solver=tok["solver"],
                                                    random_state=tok["random_state"], solver_kwargs=skw, check_nans=False, compute=True))
-        agg.vc("OPA._fit_algorithm", "the pre-PCA is centred (default or explicit center=True)", struct_vc(ctor[0].get("center", True) is True, str(ctor[0].get("center"))), "")
-    else:
+        if "preprocessing" in aspects and "OPA" in models:
+            agg.vc("OPA._fit_algorithm", "the pre-PCA is centred (default or explicit center=True)", struct_vc(ctor[0].get("center", True) is True, str(ctor[0].get("center"))), "")
+    elif "OPA" in models:
         agg.vc("OPA._fit_algorithm", "constructs its inner EOF", struct_vc(False, str(cs)[:200]), "")
     # Bootstrapper: member models
     base = xeofs.single.EOF(n_modes=2, sample_name="obs", feature_name="cell", solver="full").fit(X2.rename(obs="time"), "time")
     cs = run(bsmod, lambda: xeofs.validation.EOFBootstrapper(n_bootstraps=2, seed=3), lambda b: b.fit(base))
     ctor = [c_ for c_ in cs if "__fit_dim__" not in c_ and "__error__" not in c_]
     errs = [c_ for c_ in cs if "__error__" in c_]
-    agg.vc("EOFBootstrapper.fit", "reaches the member fit for a model with custom dimension names", struct_vc(bool(ctor) and not errs, str(errs)[:200]), "")
+    if "names" in aspects and "EOFBootstrapper" in models:
+        agg.vc("EOFBootstrapper.fit", "reaches the member fit for a model with custom dimension names", struct_vc(bool(ctor) and not errs, str(errs)[:200]), "")
     if ctor:
         expect("EOFBootstrapper.fit", ctor[0], dict(n_modes=2, standardize=False, use_coslat=False, sample_name="obs", feature_name="cell"))
         agg.vc("EOFBootstrapper.fit", "member models are centred EOF analyses", struct_vc(ctor[0].get("center", True) is True, str(ctor[0].get("center"))), "")
@@ -362,6 +377,67 @@ def eval_case(c):
     elif rel == "custom-names":
         names = dict(sample_name=c.get("sname", "obs"), feature_name=c.get("fname", "gridcell"))
         check(_fit(model, da, names=names, Y=Y))
+    elif rel == "transpose-two-sample-dims":
+        # two sample dimensions given in the same order by the user; the array stores them in different axis orders
+        X3 = xr.DataArray(rng.standard_normal((6, 5, 4)).cumsum(0), dims=("t1", "t2", "x"), coords={"t1": np.arange(6), "t2": np.arange(5), "x": np.arange(4)})
+        cls = getattr(xeofs.single, model)
+        kw = dict(tau=1, embedding=2) if model == "ExtendedEOF" else {}
+        a = cls(n_modes=2, solver="full", **kw).fit(X3, ("t1", "t2"))
+        for perm in (("x", "t2", "t1"), ("t2", "x", "t1")):
+            b = cls(n_modes=2, solver="full", **kw).fit(X3.transpose(*perm), ("t1", "t2"))
+            if real.relerr(b.singular_values().values, a.singular_values().values) > tol:
+                msgs.append(f"{rel}: singular values change with the axis order {perm} ({b.singular_values().values} vs {a.singular_values().values})")
+            else:
+                _cmp(a.scores(), b.scores(), f"{rel}: scores", msgs, tol)
+    elif rel == "labelled-weights":
+        # the same labelled weight field with the data's latitudes reversed and longitudes shuffled: weights go by label
+        W = xr.DataArray(rng.uniform(0.3, 3.0, (da.sizes["lat"], da.sizes["lon"])), dims=("lat", "lon"), coords={"lat": da.lat, "lon": da.lon})
+        Xp = da.isel(lat=slice(None, None, -1), lon=rng.permutation(da.sizes["lon"]))
+        if cross:
+            a = getattr(xeofs.cross, model)(n_modes=2, use_pca=False, solver="full", **({"alpha": 0.5} if model == "CPCCA" else {})).fit(da, Y, "time", weights_X=W)
+            b = getattr(xeofs.cross, model)(n_modes=2, use_pca=False, solver="full", **({"alpha": 0.5} if model == "CPCCA" else {})).fit(Xp, Y, "time", weights_X=W)
+            if real.relerr(b.data["singular_values"].values, a.data["singular_values"].values) > tol:
+                msgs.append("labelled-weights: singular values change when the data (not the weights) is re-ordered")
+            _cmp(a.scores()[0], b.scores()[0], "labelled-weights: scores", msgs, tol)
+        else:
+            a = xeofs.single.EOF(n_modes=3, solver="full").fit(da, "time", weights=W)
+            b = xeofs.single.EOF(n_modes=3, solver="full").fit(Xp, "time", weights=W)
+            if real.relerr(b.singular_values().values, a.singular_values().values) > tol:
+                msgs.append("labelled-weights: singular values change when the data (not the weights) is re-ordered")
+            _cmp(a.components(), b.components(), "labelled-weights: components", msgs, tol)
+            _cmp(a.scores(), b.scores(), "labelled-weights: scores", msgs, tol)
+    elif rel == "near-tie-sign":
+        # a dipole whose largest positive and most negative loadings differ by a relative 3e-7 (far above round-off):
+        # the orientation must not depend on which feature comes first
+        nt, p = 30, 8
+        u = rng.standard_normal(nt)
+        u = u - u.mean()
+        v = np.array([1.0, -(1.0 - 3e-7), 0.4, -0.3, 0.2, 0.1, -0.05, 0.02])
+        u2 = rng.standard_normal(nt)
+        u2 = u2 - u2.mean()
+        u2 = u2 - u * (u @ u2) / (u @ u)
+        v2 = np.array([0.0, 0.0, 1.0, 1.0, -1.0, 0.5, 0.3, -0.2])
+        v2 = v2 - v * (v @ v2) / (v @ v)
+        X = 5.0 * np.outer(u, v) + 0.5 * np.outer(u2, v2)
+        d2 = xr.DataArray(X, dims=("time", "x"), coords={"time": np.arange(nt), "x": np.arange(p)})
+        a = xeofs.single.EOF(n_modes=2, solver="full").fit(d2, "time")
+        for perm in (np.array([1, 0, 2, 3, 4, 5, 6, 7]), np.arange(p)[::-1].copy(), rng.permutation(p)):
+            b = xeofs.single.EOF(n_modes=2, solver="full").fit(d2.isel(x=perm), "time")
+            _cmp(a.components(), b.components(), "near-tie-sign: components", msgs, tol)
+            _cmp(a.scores(), b.scores(), "near-tie-sign: scores", msgs, tol)
+        b = xeofs.single.EOF(n_modes=2, solver="full").fit(d2.transpose("x", "time"), "time")
+        _cmp(a.scores(), b.scores(), "near-tie-sign (transposed): scores", msgs, tol)
+        # the two sign functions themselves are invariant under a permutation of the entries
+        import xeofs.linalg._numpy._svd as nsvd
+        import xeofs.utils.xarray_utils as xu
+        for gap in (3e-7, 1e-9, 1e-3):
+            col = np.array([0.7, -(0.7 * (1 - gap)), 0.1, -0.2, 0.3])
+            for pm in (np.arange(5), np.array([1, 0, 2, 3, 4]), np.array([4, 3, 2, 1, 0])):
+                M = np.stack([col[pm], -col[pm]], axis=1)
+                sg = np.asarray(nsvd.get_deterministic_sign_multiplier(M, axis=0)).ravel()
+                sx = xu.get_deterministic_sign_multiplier(xr.DataArray(M, dims=("f", "mode")), "f").values.ravel()
+                if list(sg) != [1.0, -1.0] or list(sx) != [1.0, -1.0]:
+                    msgs.append(f"sign multiplier depends on the order of the entries (gap {gap}, order {pm.tolist()}): numpy {sg}, xarray {sx}")
     elif rel == "sample-permutation":
         idx = rng.permutation(da.sizes["time"])
         Xp = da.isel(time=idx)
@@ -385,6 +461,11 @@ def bounded_cases(tier, seed):
                 cases.append(dict(model=model, relation=rel, variant=variant, keep=rel == "custom-names"))
     for model in ("EOF", "MCA", "CPCCA"):
         cases.append(dict(model=model, relation="transpose-2d", keep=True))
+    for model in ("EOF", "MCA", "CPCCA"):
+        cases.append(dict(model=model, relation="labelled-weights", keep=True))
+    cases.append(dict(model="EOF", relation="near-tie-sign", keep=True))
+    for model in ("EOF", "HilbertEOF", "ExtendedEOF"):
+        cases.append(dict(model=model, relation="transpose-two-sample-dims", keep=True))
     for (sn, fn_) in (("sample_", "feat"), ("time2", "space"), ("n", "p")):
         cases.append(dict(model="EOF", relation="custom-names", sname=sn, fname=fn_, keep=True))
     for i, c in enumerate(cases):
@@ -421,6 +502,9 @@ def run(tier, seed):
     res.trusted = ["CPython on proxies", "vf/sym proxies", "Python ast (literal scan)"]
     agg = Agg(res, "C07")
     deductive(res, agg)
+    # the sign convention is what makes results independent of the feature order: its contract (shared with C15)
+    from props.C15 import deductive_sign
+    deductive_sign(res, agg)
     agg.flush()
     run_bounded(res, tier, seed)
     return res
